@@ -29,8 +29,21 @@ def bisect (inp : Json) : R Res := do
   return { m := mk r.1.delivered r.1.reported r.2 r.1.lastErr r.1.sink, s := spec,
            nt := decide (all.length > 1 ∧ !(bad.isEmpty ∧ fc.isEmpty)) }
 
+/-- `c17.overlap`: one batch of `n` entities through the real job.Run while a second trigger of the same job
+is turned away: the outcome is that of the undisturbed bisection, whatever the moment of the second trigger. -/
+def overlap (inp : Json) : R Res := do
+  let n ← getNat inp "n"
+  let bad ← natList (← getObj inp "bad")
+  let m ← getNat inp "m"
+  let s0 : St Nat Nat := ({ sink := 0, lastErr := false } : St Nat Nat).reset
+  let r := run (sinkF bad []) m (if n = 0 then [] else [List.range n]) s0
+  let o := Json.mkObj [("delivered", jNats r.1.delivered), ("calls", jNat r.1.sink),
+    ("failed", Json.bool (r.1.lastErr || r.2 = Bisect.Res.maxItems))]
+  return { m := o, nt := decide (n > 1 ∧ !bad.isEmpty) }
+
 def handle (k : String) (inp : Json) : Option (R Res) :=
   match k with
+  | "c17.overlap" => some (overlap inp)
   | "c17.bisect" => some (bisect inp)
   | "c17.bisectchild" => some (bisect inp)
   | _ => none
